@@ -49,7 +49,7 @@ CHECKS = {
  "C10": ("exploration",
          "runtime metamorphic monitor: insert one directive, predict the new -show-ignored report from the old one, compare with the real linter's output",
          "Hundreds of seeded placements of //lint:ignore and //lint:file-ignore lines (exact ids, globs, wrong case, other checks, U1000, disabled and unknown checks, with/without reason) above statements and declarations; the prediction (line shift, exactly the named problems on the attached node's line suppressed, unmatched-directive / malformed-directive problems) must equal the real output.",
-         "trusted: go/ast.NewCommentMap for attachment; U1000 directives only in exact spelling."),
+         "trusted: go/ast.NewCommentMap for attachment; U1000 directives only in exact spelling. A line-pragma unit lints generated files with and without a //line pragma that maps the code to another .go file name: the two -show-ignored reports must be equal after translating positions by the known offset (directives below generator/cgo pragmas)."),
  "C11": ("exploration",
          "runtime reference-model monitor: documented check-selection algebra, exit-status rule and cross-format agreement vs. the CLI over generated configuration trees",
          "Generated trees of staticcheck.conf files at three nested levels x -checks x -fail x -show-ignored x source variants are linted in text, stylish, JSON and SARIF; printed problems must equal the universe restricted to the model-selected set, exit status must follow the documented rule, and all formats must render the same set.",
